@@ -145,7 +145,13 @@ var attrGen = rapid.Custom(func(t *rapid.T) string {
 		v = styleGen.Draw(t, "style")
 	default:
 		k = rapid.SampledFrom([]string{"class", "id", "title", "align", "width", "target", "name", "type", "x"}).Draw(t, "plain")
-		v = rapid.SampledFrom([]string{"a", "1", "x y", "", "<b>", "\">", "'"}).Draw(t, "pv")
+		v = rapid.SampledFrom([]string{"a", "1", "x y", "", "<b>", "\">", "'",
+			// quotes that exist only as character references: a sanitiser that writes a decoded value back
+			// without re-escaping it lets the rest of the value become attributes
+			`" style="position:fixed;top:0;left:0" lang="aaaaaaaaaaaaaaaaaaaaaaaaaaaaaaaaaaaaaaaa`,
+			`&#34; style=&#34;position:fixed&#34; lang=&#34;aaaaaaaaaaaaaaaaaaaaaaaaaaaaaaaa`,
+			`&quot; onclick=&quot;alert(1)&quot; lang=&quot;aaaaaaaaaaaaaaaaaaaaaaaaaaaaaaaa`,
+			`x&amp;y&lt;z`, `&#39; style=&#39;behavior:url(x)&#39; lang=&#39;aaaaaaaaaaaaaaaaaaaa`}).Draw(t, "pv")
 	}
 	// the tokenizer allows white space around '=': a sanitiser that looks for "name=" must too
 	eq := rapid.SampledFrom([]string{"=", "=", "=", " =", "= ", " = ", "\n=", "\t=\t", "\f="}).Draw(t, "eq")
